@@ -119,7 +119,18 @@ def check_forward(rep, ctx, AU):
             continue
         fp = [e for e in r.events if e.kind == "call" and e.callee.endswith("Response::from_parts")]
         if not fp:
-            continue        # the host could not be reached: an empty 502/503 is produced (not a relayed response)
+            # no response is built from parts: legitimate only when the host could not be reached (the argument is Err: an empty 502/503).
+            # A path that holds the host's response (into_parts of it / argument Ok) and answers with something else drops its head.
+            host_resp = [e for e in r.events if e.kind == "call" and e.callee.endswith("Response::into_parts")]
+            arg_ok = False
+            co_ = origin(r.args[0])
+            if isinstance(co_, Sym):
+                for k_, ch in list(co_._kids.items()):
+                    pass
+            if host_resp:
+                rep.add(Query("forward_response path %d: a response received from the host is relayed from its own head and body" % i, "violated",
+                              "the host's response is taken apart but the value returned is %r" % (r.ret,), 0, "mirsym", key="C14.resp.built", reproduced=None))
+            continue
         n_ok += 1
         fp = fp[-1]
 
